@@ -318,7 +318,7 @@ func c20ZeroPanic(c *eng.Ctx, f *ssa.Function, p *ssa.Parameter, why string) {
 		return
 	}
 	var sinks []ssa.Instruction
-	for _, cl := range eng.Calls(f, `^shamir\.`) {
+	for _, cl := range eng.Calls(f, `^shamir\.[^$]*$`) { // the package's field operations, not the function's own closures
 		sinks = append(sinks, cl)
 	}
 	for _, r := range eng.Returns(f) {
